@@ -1,7 +1,141 @@
-//! C18 — TODO
-use mc_core::Ctx;
+//! C18 — a pooled Merkle-map cache never serves data from a superseded generation.
+//!
+//! Two parts, both executed on the real `resource_pool.rs` of the working tree:
+//!
+//! * [`seq`]  — every operation sequence up to a length (acquire, the three ways of giving back,
+//!   the refresher's steps in the order `compute_cache` performs them, a third party's give-back,
+//!   reset) on the crate `mithril-resource-pool` as built normally, against a boring reference
+//!   (a `Vec` of what should be in the pool + the generation counters of the harness).
+//! * [`conc`] — all thread interleavings up to a preemption bound (loom) of the same source file
+//!   compiled against `loom::sync::{Mutex, Condvar}` (see `build.rs`): proof computations that
+//!   overlap a cache refresh, concurrent give-backs, waiters on an empty pool.
+//!
+//! The oracle never looks at the pool's labels: every resource carries the generation it was
+//! born in (`born`), stamped by the harness.
 
-pub fn run(_ctx: &Ctx) -> ! {
-    eprintln!("C18: not implemented");
-    std::process::exit(2)
+use mc_core::{Ctx, Report};
+use serde::{Deserialize, Serialize};
+use serde_json::json;
+
+pub mod conc;
+pub mod seq;
+
+/// One pool call of `compute_cache`; the order is extracted from the prover sources by `build.rs`.
+#[derive(Clone, Copy, Debug, PartialEq, Eq, Hash, Serialize, Deserialize)]
+pub enum RefreshToken {
+    /// `let discriminant_new = pool.discriminant()? + 1;`
+    ReadNext,
+    /// `pool.set_discriminant(discriminant_new)?;`
+    SetDiscriminant,
+    /// `pool.clear();`
+    Clear,
+    /// `size` × `pool.give_back_resource(new_resource, discriminant_new)`
+    Refill,
+}
+include!(concat!(env!("OUT_DIR"), "/refresh_protocol.rs"));
+
+/// classifier keys (one per root cause / failing clause)
+pub mod key {
+    /// a resource of a superseded generation was re-admitted / served, and it had been handed out
+    /// under a label newer than its own generation (label read at acquire ≠ generation popped)
+    pub const RELABELLED: &str = "C18/stale-generation-relabelled-at-acquire";
+    /// a resource of a superseded generation was re-admitted / served although it was handed out
+    /// under the label of its own generation (the give-back did not compare, or compared wrongly)
+    pub const STALE: &str = "C18/stale-generation-served";
+    pub const OVERFULL: &str = "C18/pool-overfull";
+    pub const LOST_WAKEUP: &str = "C18/lost-wakeup";
+    pub const ACQUIRE_FAILS: &str = "C18/acquire-fails-on-non-empty-pool";
+    pub const DROPPED: &str = "C18/current-generation-resource-dropped";
+    pub const CONTENT: &str = "C18/pool-content-differs-from-reference";
+    pub const PANIC: &str = "C18/panic-in-pool";
+    pub const API_ERROR: &str = "C18/unexpected-error";
+}
+
+/// Violations of both parts, gathered so that the simplest counterexample of each key comes first.
+#[derive(Default)]
+pub struct Findings {
+    /// (key, complexity (smaller = simpler), occurrences, what, replay)
+    pub items: Vec<(String, usize, u64, String, serde_json::Value)>,
+}
+
+impl Findings {
+    pub fn add(&mut self, key: &str, complexity: usize, occurrences: u64, what: String, replay: serde_json::Value) {
+        self.items.push((key.to_string(), complexity, occurrences, what, replay));
+    }
+    pub fn into_report(mut self, rep: &mut Report) {
+        self.items.sort_by(|a, b| (&a.0, a.1).cmp(&(&b.0, b.1)));
+        let mut counts: std::collections::BTreeMap<String, u64> = Default::default();
+        for (k, _, n, what, replay) in self.items {
+            *counts.entry(k.clone()).or_insert(0) += n;
+            rep.violation(&k, what, replay);
+        }
+        for (k, n) in counts {
+            rep.violation_counts.insert(k, n);
+        }
+    }
+}
+
+pub fn run(ctx: &Ctx) -> ! {
+    // child process of the loom part: one scenario, result as one JSON line on stdout
+    if let Some(p) = ctx.extra_args.iter().position(|a| a == "--loom-child") {
+        conc::child_main(ctx, &ctx.extra_args[p + 1..]);
+    }
+
+    let mut rep = Report::new(
+        "model_checking",
+        "sequential: every enabled operation sequence up to the stated length on pools of the stated sizes is run on \
+         the real crate, followed by completing a refresh in progress and draining the pool; a history is non-trivial \
+         when a resource is given back (any way) after a refresher step happened since it was acquired; distinct = \
+         distinct (configuration, canonical end state, outcome). concurrent: every loom execution of every scenario; \
+         an execution is non-trivial when a user's acquire..give-back window overlapped the refresh (or, in the \
+         scenarios without refresher, when the two parties were in flight at the same time); distinct = distinct \
+         harness-level event traces",
+    );
+    rep.max_samples = 8;
+    rep.extra("refresh_protocol_extracted_from_prover", json!(REFRESH_PROTOCOL));
+
+    if let Some(path) = &ctx.replay {
+        let v = mc_core::load_replay(path);
+        let mut found = Findings::default();
+        match v["part"].as_str() {
+            Some("seq") => seq::replay(ctx, &v, &mut rep, &mut found),
+            Some("loom") => conc::replay(ctx, &v, &mut rep, &mut found),
+            _ => {
+                eprintln!("replay file has no part=seq|loom");
+                std::process::exit(2);
+            }
+        }
+        found.into_report(&mut rep);
+        rep.nontrivial(&0u8);
+        rep.nontrivial(&1u8);
+        rep.finish(ctx);
+    }
+
+    let mut found = Findings::default();
+    seq::explore(ctx, &mut rep, &mut found);
+    conc::explore(ctx, &mut rep, &mut found);
+    found.into_report(&mut rep);
+
+    rep.assume(
+        "loom's Condvar::wait_timeout never times out: the time-out branch of acquire_resource is exercised only \
+         sequentially (empty pool => error); concurrently, waiters are modelled only where a notification is due and \
+         a deadlock reported by loom stands for a lost wake-up",
+    );
+    rep.assume(
+        "the concurrent part compiles a copy of resource_pool.rs whose only code change is the import of Mutex/Condvar \
+         from loom::sync instead of std::sync (build.rs, exact-match-or-fail); loom's model of these primitives and its \
+         DPOR/preemption-bounded search are trusted",
+    );
+    rep.assume(
+        "the refresher performs the pool calls of compute_cache in the order extracted from prover.rs/prover_legacy.rs at \
+         build time, users do acquire -> use -> give back (item / drop / explicit with the item's own label); the \
+         harness stamps every resource with the generation it was born in and never hands a stale resource back under \
+         a label other than the one the pool itself put on the item",
+    );
+    rep.assume(
+        "a resource handed out while a refresh is still in progress may belong to the previous generation (weakest \
+         reading of 'handed out afterwards'); only acquisitions that start after the refresh completed, and the final \
+         drain, are judged",
+    );
+    rep.finish(ctx)
 }
